@@ -4,6 +4,7 @@ import (
 	"encoding/hex"
 	"fmt"
 	"strings"
+	"sync/atomic"
 	"time"
 
 	mqtt "github.com/mochi-mqtt/server/v2"
@@ -523,11 +524,20 @@ func (h *History) Step(o Op) {
 		}
 	case "inline_subscribe":
 		id := o.InlineID
+		var during atomic.Bool
+		publishDuring := func() {
+			if o.DurM != "" && during.CompareAndSwap(false, true) {
+				_ = h.Srv.Publish(join(o.DurT), payload(o.DurM, 0), false, 0)
+			}
+		}
 		err := h.Srv.Subscribe(join(o.T), id, func(cl *mqtt.Client, sub packets.Subscription, pk packets.Packet) {
 			h.rec.add(HookEv{H: "inline", C: fmt.Sprint(id), M: msgID(pk.Payload), TS: pk.TopicName, P: sub.Identifier, Q: int(pk.FixedHeader.Qos)})
+			publishDuring() // the subscription has begun to receive: it is live
 		})
 		if err != nil {
 			e.Err = "api: " + err.Error()
+		} else {
+			publishDuring()
 		}
 		h.quiesce()
 	case "inline_unsubscribe":
